@@ -32,7 +32,7 @@ import z3
 
 import engine
 import models
-from engine import VAdt, VBool, VInt, VOpaque, VRef, VSeq, VStruct, VTuple, VUnit, base_ty, vcopy, norm_ty
+from engine import VAdt, VBool, VInt, VOpaque, VRef, VSeq, VStruct, VTuple, VUnit, VMap, VIter, base_ty, vcopy, norm_ty
 from specutil import is_variant, run_reference, vid_of
 import t_parse as TP
 from t_parse import mk_token, variant, code_points, verify_block, result_parts, entry, PREC, BINARY_TOKENS
@@ -108,6 +108,8 @@ def template(*items, layout=None):
                 toks.append(fstring_token(ex, i, it["fstring"]))
             elif isinstance(it, (tuple, list)):
                 toks.append(mk_token(ex, i, None, sym=list(it)))
+            elif it == "$":
+                toks.append(mk_token(ex, i, "StringLit", VOpaque("String", ex.new_vid(), f"strlit:{i}")))
             elif it == "#":
                 v = ex.fresh("u64", f"lit{i}")
                 ex.assume(z3.ULE(v.bv, I64_MAX))
@@ -785,12 +787,20 @@ def term_of_value(ex, v):
                 ex.notes.setdefault("spell", {})[f[0].vid] = tag[4:]      # a name the compiler wrote itself
             return ("identval", getattr(f[0], "vid", None))
         if name == "String" and f:
+            tag = getattr(f[0], "tag", None) or ""
+            if tag.startswith("strlit:"):
+                return ("lit", int(tag[7:]))           # the string literal token of the template
             return ("text", getattr(f[0], "vid", None))
+        if name == "Map" and f and isinstance(f[0], VMap):
+            # a folded map literal: entries in insertion order (a later entry of the same key wins, as at run time)
+            return ("map", tuple((term_of_value(ex, k) if not isinstance(k, VOpaque) else (("lit", int(k.tag[7:])) if (k.tag or "").startswith("strlit:") else ("text", k.vid)), term_of_value(ex, v)) for k, v in f[0].entries))
     return ("opaque", vid)
 
 
 def literal_token(ex, payload):
     """index of the literal token whose payload this integer is (decided by the solver)"""
+    if isinstance(payload, VOpaque) and (payload.tag or "").startswith("strlit:"):
+        return int(payload.tag[7:])
     if not isinstance(payload, VInt):
         return None
     il = ex.P.types.variant_index("Token", "IntLit")
@@ -879,6 +889,25 @@ def m_string_eq_lit(ex, callee, args, ret_ty, frame):
     return VBool(sa == sb)
 
 
+def m_step_by(ex, callee, args, ret_ty, frame):
+    """Range<usize>::step_by(n) with concrete bounds: the indices, eagerly"""
+    r, n = args[0], args[1].concrete()
+    a, b = r.fields[0].concrete(), r.fields[1].concrete()
+    if a is None or b is None or not n:
+        raise engine.Unsupported("step_by over a symbolic range")
+    items = [VInt(z3.BitVecVal(k, 64), False) for k in range(a, b, n)]
+    return VIter(VSeq("usize", len(items), items, ex.new_vid()), 0, None, "owned")
+
+
+def m_map_into_value(ex, callee, args, ret_ty, frame):
+    """<HashMap<String, CelValue> as Into<CelValue>>::into: the map value holding these entries"""
+    m = args[0]
+    if not isinstance(m, VMap):
+        return models.NOT_HANDLED
+    idx = ex.P.types.variant_index("CelValue", "Map")
+    return VAdt("CelValue", idx, {idx: [m]}, ex.new_vid())
+
+
 def m_get_type_none(ex, callee, args, ret_ty, frame):
     """`bindings.get_type(name)` in a match pattern: the identifiers of the templates are not type
     names (type patterns are outside the templates)"""
@@ -891,6 +920,7 @@ GRAMMAR_CFG["models"] = [
     (r"^<dyn Tokenizer as Tokenizer>::peek$", m_peek), (r"^<dyn Tokenizer as Tokenizer>::next$", m_next), (r"^StringTokenizer::(<.*>::)?with_input$", m_with_input),
 ] + [m for m in TP.PARSE_CFG["models"] if m[1] not in (TP.m_value_op, TP.m_location, TP.m_peek, TP.m_next) and "is_truthy" not in m[0]] + [
     (r"^<dyn Tokenizer as Tokenizer>::location$", m_location),
+    (r"^<Range<usize> as Iterator>::step_by$", m_step_by), (r"^<HashMap<String, CelValue> as Into<CelValue>>::into$", m_map_into_value),
     (r"^<String as PartialEq<&?str>>::eq$", m_string_eq_lit), (r"^BindContext::(<.*>::)?get_type$", m_get_type_none),
     (r"^(CelValue::(or|and|lt|le|gt|ge|neq|in_|index|access)|<CelValue as (Add|Sub|Mul|Div|Rem|Not|Neg|CelValueDyn)>::(add|sub|mul|div|rem|not|neg|eq|access))$", m_fold_op),
     (r"is_truthy$", m_is_truthy),
@@ -1374,6 +1404,9 @@ TARGETS = [
     tgt("gram_call_chain", ["f", "LParen", "a", "RParen", "Dot", "g", "LParen", "b", "Comma", "c", "RParen"], "`f(a).g(b, c)`: calls chain left to right"),
     tgt("gram_lines", ["a", ("Add", "OrOr", "LessThan"), "b", ("Multiply", "Question"), "c", ("Colon", "Add"), "d", "LBracket", "e", "RBracket"],
         "`a + b * c + d[e]`, `a || b ? c : d[e]` ... with every token on its own line, each further left than the one before: spans are ordered by line first", layout=stairs),
+    tgt("gram_map_const", ["LBrace", "$", "Colon", "@a", "Comma", "$", "Colon", "#", ("Comma", "RBrace"), "RBrace"],
+        "`{'k': a, 'l': 2}` with constant and variable values: the folded literal and the run-time MkDict give the same entries in source order"),
+    tgt("gram_map_field", ["LBrace", "$", "Colon", "@a", "RBrace", ("Dot", "Add"), "b"], "`{'k': 1}.b`, `{'k': a} + b`: a field access on a constant object is folded only when the field exists"),
     tgt("gram_fstring", [{"fstring": [("expr", ["a", ("Add", "OrOr"), "@b"]), ("lit", " and "), ("expr", ["c"])]}, ("Add", "EqualEqual"), "d"],
         "`f'{a op b} and {c}' + d`: every segment goes through string(), embedded expressions are compiled from their own text and handed over unevaluated, FmtString joins the segments in source order; their variables are parameters"),
     tgt("gram_match", ["Match", "s", "LBrace", "Case", ("EqualEqual", "NotEqual", "GreaterThan", "GreaterEqual", "LessThan", "LessEqual"), "p", "Colon", "x", "Comma", "Case", "_", "Colon", "y", "RBrace"],
